@@ -186,7 +186,7 @@ func c19NoRecover(c *vlib.Ctx) {
 					s.one(t, b, "word-sweep")
 				}
 				c.Count("word_sweep_variants", len(ws))
-				for _, b := range cp.LongRepeats(c.Rand(uint64(t), uint64(si), 99), seed, c.Pick(8, 60), 65536) {
+				for _, b := range cp.LongRepeats(c.Rand(uint64(t), uint64(si), 99), seed, c.Pick(10, 60), 2*65536+300) {
 					s.one(t, b, "long-repeat")
 				}
 			}
